@@ -14,27 +14,13 @@ Theorem C07_parse_print : forall (cfg : pcfg) (e : sx) (x : expr) (rest : list t
 Proof. exact tie_parse_print. Qed.
 Print Assumptions C07_parse_print.
 
-(* the value of a name in a frame: private bindings shadow public ones; unbound is nil *)
-Definition frame_lookup (fr : frame) (n : str) : value :=
-  match (match ctx_get n (f_priv fr) with Some c => Some c | None => ctx_get n (f_pub fr) end) with
-  | Some (CV v) => match vv v with VNil => as_value VNil | _ => v end
-  | _ => as_value VNil
-  end.
-(* every name the tree mentions is bound to plain data (not a macro, block or cycle value) *)
-Fixpoint vars_plain (fr : frame) (e : sx) : bool :=
-  match e with
-  | SVar n => match (match ctx_get n (f_priv fr) with Some c => Some c | None => ctx_get n (f_pub fr) end) with
-              | Some (CV _) | None => true
-              | _ => false
-              end
-  | SNeg a | SNot a => vars_plain fr a
-  | SPow a b | SMul _ a b | SAdd _ a b | SRel _ a b | SLogic _ a b => vars_plain fr a && vars_plain fr b
-  | _ => true
-  end.
+(* [frame_lookup fr n]: the value of a name in a frame (private bindings shadow public ones,
+   unbound is nil); [vars_plain fr e]: every name the tree mentions is bound to plain data.
+   Both are defined in Proofs/ExprB.v. *)
 
 Theorem C07_eval_elab : forall (se : senv) (globals : list (str * cval)) (e : sx) (x : expr)
                                (st : mstate) (fr : frame),
-  elab e = Some x -> top_frame st = Ok fr -> vars_plain fr e = true ->
+  swf e = true -> elab e = Some x -> top_frame st = Ok fr -> vars_plain fr e = true ->
   exists f0, forall f, (f0 <= f)%nat ->
     eval se globals f st x =
       match seval (frame_lookup fr) e with
